@@ -160,6 +160,17 @@ func nl(xs []int) string {
 	return gen.List(items)
 }
 
+// task names: the JSON side keeps e*64+i, the Coq side has the pair (e, i)
+func tidTerm(k int) string { return fmt.Sprintf("(%d, %d)", k/64, k%64) }
+
+func tl(xs []int) string {
+	items := make([]string, len(xs))
+	for i, x := range xs {
+		items[i] = tidTerm(x)
+	}
+	return gen.List(items)
+}
+
 func roleTerm(r Role) string {
 	k := "RPlain"
 	switch r.Kind {
@@ -196,9 +207,9 @@ func opTerm(o Op) string {
 	case "cleanup":
 		return "OCleanup"
 	case "kill":
-		return fmt.Sprintf("(OKill %s)", nl(o.Ids))
+		return fmt.Sprintf("(OKill %s)", tl(o.Ids))
 	case "dies":
-		return fmt.Sprintf("(ODies %d)", o.T)
+		return fmt.Sprintf("(ODies %s)", tidTerm(o.T))
 	}
 	return "OCleanup"
 }
@@ -214,10 +225,10 @@ func obsTerm(o Obs) string {
 		if t.Owner >= 0 {
 			ow = fmt.Sprintf("(Some %d)", t.Owner)
 		}
-		ts[i] = fmt.Sprintf("(mkTask %d %s %s %d)", t.Id, ow, gen.Bool(t.Active), t.State)
+		ts[i] = fmt.Sprintf("(mkTask %s %s %s %d)", tidTerm(t.Id), ow, gen.Bool(t.Active), t.State)
 	}
 	return fmt.Sprintf("(mkObs %d %s %s %s %s %s %s %s %d %d %s)", o.Rc, gen.List(es), gen.List(ts), nl(o.ADets),
-		nl(o.Kills), nl(o.Cmds), nl(o.Calls), nl(o.Trigs), o.Early, o.Pend, nl(o.Launch))
+		tl(o.Kills), tl(o.Cmds), tl(o.Calls), tl(o.Trigs), o.Early, o.Pend, tl(o.Launch))
 }
 
 func caseTerm(h History, r Result) string {
